@@ -492,7 +492,7 @@ def run(chk, tier, seed):
     model_check(chk, "grow_n1r2", dict(N=1, SndTo=1, RcvTo=1, ConTo=1, MaxReq=2, R=2, MaxCap=2), (1, 1, 1), 900)
     model_check(chk, "conf_n1c2", dict(N=1, SndTo=1, RcvTo=1, ConTo=1, MaxReq=2, R=0, C=2), (1, 2, 2), 900)
     if tier == "thorough":
-        model_check(chk, "conf_n1r1c2", dict(N=1, SndTo=1, RcvTo=1, ConTo=1, MaxReq=2, R=1, C=2), (1, 2, 2), 2400)
+        model_check(chk, "conf_n1r1c2", dict(N=1, SndTo=1, RcvTo=1, ConTo=1, MaxReq=2, R=1, C=2), (1, 1, 2), 1200)
     liveness(chk, False); liveness(chk, True)
     if tier == "thorough":
         model_check(chk, "n2r2", dict(N=2, SndTo=1, RcvTo=1, ConTo=0, MaxReq=2, R=2), (2, 2, 3), 1800)
